@@ -935,6 +935,11 @@ func ModifyRegister(register *object.Register, in ast.Node) (ast.Node, bool) {
 			// not handled either (--x), needs a variable.
 			return nil, false
 		}
+	case *ast.Builtin:
+		// del(n) needs the binding and quote(...) the source text: keep n a plain variable.
+		if in.Type() == token.QUOTE || (in.Type() == token.DEL && len(in.Parameters) > 0 && in.Parameters[0] == ast.Node(register)) {
+			return nil, false
+		}
 	case *ast.MapLiteral:
 		// {n:a, n:b}: both keys became the same register node and ast.Modify's Pairs lost an entry.
 		if len(in.Pairs) != len(in.Order) {
